@@ -37,12 +37,12 @@ LogSeqOK(lg) == /\ \A k \in 1..Len(lg) : lg[k][3] = 1
                 /\ WP!LogOK([k \in 1..Len(lg) |-> <<lg[k][1], lg[k][2]>>], Len(X.dets), [w \in 1..3 |-> WP!Ids(Len(X.dets))], LogWriters(O))
                 /\ \A k \in 1..Len(lg) : lg[k][1] \in {0} \cup LogWriters(O)
 X04 == IF X.tf = "X" THEN X.raised ELSE
-       /\ X.exit = Exit(O) /\ ~X.raised
+       /\ (IF PlotCrashes(O) THEN X.raised ELSE X.exit = Exit(O) /\ ~X.raised)
        /\ IF RunsCommands(O) THEN X.fx.ncommands = Len(X.dets) /\ X.fx.commands_ok ELSE X.fx.ncommands = 0
        /\ IF Echoes(O) THEN X.fx.echo_ok ELSE X.fx.nplayed = 0
        /\ IF LogsToFile(O) THEN X.fx.logfile /\ LogSeqOK(X.fx.log) ELSE ~X.fx.logfile
        /\ IF LogsToStderr(O) THEN LogSeqOK(X.fx.elog) ELSE Len(X.fx.elog) = 0
-       /\ IF Plots(O) THEN X.fx.nplots = 1 /\ X.fx.plot_ok ELSE X.fx.nplots = 0
+       /\ IF Plots(O) /\ ~PlotCrashes(O) THEN X.fx.nplots = 1 /\ X.fx.plot_ok ELSE X.fx.nplots = 0
        /\ (SavesStream(O) => X.stream_ok) /\ (JoinsEvents(O) => X.joined_ok) /\ (SavesRegions(O) => X.regions_ok)
        /\ X.extra_files = 0
 Mon == TLCSet(i, (IF C15 THEN 1 ELSE 2) + (IF X.hasfx /\ ~X04 THEN 2 ELSE 0))
